@@ -307,7 +307,7 @@ fn show(events: &[Ev]) -> Json {
 pub fn run(ctx: &Ctx, rep: &mut Report) {
     install_callback();
     verif::reset_failpoint_hits();
-    let n = if ctx.is_miri() { ctx.cases(1, 16) } else { ctx.cases(4_000, 150_000) };
+    let n = if ctx.is_miri() { ctx.cases(1, 16) } else { ctx.cases(4_000, 40_000) };
     let started_all = Instant::now();
     for case in ctx.case_range(n) {
         rep.current_case = case;
